@@ -113,3 +113,8 @@ package controlcommands
 //@   property C12
 //@   modifies nothing
 //@   ensures fresh(c) && c.Name == name && c.EnvironmentId == envId && c.TargetList == receivers && c.argMap == argMap && c.ResponseTimeout == defaultResponseTimeout
+
+//@ func NewMesosCommand_Transition(envId uid.ID, receivers []MesosCommandTarget, source string, event string, destination string, arguments PropertyMapsMap) (c *MesosCommand_Transition)
+//@   property C12 C17
+//@   modifies nothing
+//@   ensures fresh(c) && c.Source == source && c.Event == event && c.Destination == destination && c.EnvironmentId == envId && c.TargetList == receivers
